@@ -242,6 +242,8 @@ partial def lexGo (cs : List Char) (acc : List Tok) (qm : Bool := false) : Optio
     else if isAlpha c then
       let (w, r1) := takeWhileL isIdChr (c :: r)
       let word := String.ofList w
+      -- the identifier rule reports names that do not fit the token buffer (`$Identifier_is_too_long`)
+      if w.length ≥ identTooLongFrom then none else
       -- the one-letter tokens "A" "U" "R" "W" "E" precede the identifier rule; NonTypeId re-admits them
       -- flex takes the longest match: `A[]`, `A<>`, `E<>`, `E[]` (and their `+` / `*` forms) beat the one-letter rules
       let litTok : Option (Tok × List Char) :=
@@ -283,7 +285,9 @@ partial def lexGo (cs : List Char) (acc : List Tok) (qm : Bool := false) : Optio
     else if c == '"' then
       let (body, r1) := takeWhileL (fun x => x != '"') r
       match r1 with
-      | '"' :: r2 => if body.isEmpty then none else lexGo r2 (.atom (.str (String.ofList body)) :: acc) qm
+      | '"' :: r2 =>
+        -- the rule reports a literal that does not fit the token buffer (`$String_literal_is_too_long`; the length counts the quotes)
+        if body.isEmpty || body.length + 2 ≥ stringTooLongFrom then none else lexGo r2 (.atom (.str (String.ofList body)) :: acc) qm
       | _ => none
     else if c == '/' && r.head? == some '/' then
       let (_, r1) := takeWhileL (fun x => x != '\n') r
